@@ -43,7 +43,7 @@ pub fn strategy() -> impl Strategy<Value = Case> {
     (prop::option::weighted(0.85, 0u8..4), prop::collection::vec(op, 2..7), prop::collection::vec(any::<u8>(), 0..90), prop_oneof![3 => Just(vec![]), 1 => prop::collection::vec(prop::sample::select(vec![401u16, 403, 403, 500, 503, 429]), 1..4)]).prop_map(|(initial_key, ops, schedule, refusals)| Case { initial_key, ops, schedule, refusals })
 }
 
-pub const RULE: &str = "generator: 2-6 operations - signers (WireServerClient::get_goalstate, get_shared_config, ImdsClient::get_imds_instance_info, a client request relayed by the real listener) and key changes (update_key to one of 4 keys, clear_key) - plus a schedule of 0-89 steps; in a quarter of the cases the host refuses the first 1-3 signed requests (401 / 403 / 429 / 5xx); the owned-schedule executor polls one operation once per step with a no-op waker or yields (the only points where the shared-state actor, spawned connection tasks and the I/O driver run), so the interleaving of the signers' reads of the shared key with the key changes is a function of the schedule. oracle at the mock host: every received request that carries an authorization header verifies (independent canonicaliser + HMAC) under the key registered for the key id it announces. non-trivial: a key change was first polled after a signer was first polled and before that signer finished; distinct by hash of (ops, schedule).";
+pub const RULE: &str = "generator: 2-6 operations - signers (WireServerClient::get_goalstate, get_shared_config, ImdsClient::get_imds_instance_info, a client request relayed by the real listener, which carries a client-made authorization value naming key 0) and key changes (update_key to one of 4 keys, clear_key) - plus a schedule of 0-89 steps; in a quarter of the cases the host refuses the first 1-3 signed requests (401 / 403 / 429 / 5xx); the owned-schedule executor polls one operation once per step with a no-op waker or yields (the only points where the shared-state actor, spawned connection tasks and the I/O driver run), so the interleaving of the signers' reads of the shared key with the key changes is a function of the schedule. oracle at the mock host: every received request that carries an authorization header verifies (independent canonicaliser + HMAC) under the key registered for the key id it announces. non-trivial: a key change was first polled after a signer was first polled and before that signer finished; distinct by hash of (ops, schedule).";
 
 fn key_of(j: u8) -> (String, String) {
     let h = crate::hmacsha::hex_lower(&crate::hmacsha::sha256(format!("c10-key-{}", j % 4).as_bytes()));
@@ -56,7 +56,7 @@ async fn proxied_client() -> Result<u16, String> {
     let port = sock.local_addr().map_err(|e| e.to_string())?.port();
     verif_hooks::insert(port, verif_hooks::Entry { logon_id: 1001, process_id: std::process::id(), is_admin: 0, destination_ipv4: u32::from_ne_bytes([169, 254, 169, 254]), destination_port: 80u16.to_be() });
     let mut s = sock.connect("127.0.0.1:3080".parse().unwrap()).await.map_err(|e| e.to_string())?;
-    s.write_all(b"GET /metadata/instance?api-version=2021-02-01&x=1 HTTP/1.1\r\nHost: 169.254.169.254\r\nMetadata: true\r\nConnection: close\r\n\r\n").await.map_err(|e| e.to_string())?;
+    s.write_all(format!("GET /metadata/instance?api-version=2021-02-01&x=1 HTTP/1.1\r\nHost: 169.254.169.254\r\nMetadata: true\r\nx-ms-azure-host-authorization: {}\r\nConnection: close\r\n\r\n", crate::keyhost::CLIENT_AUTHZ_MARKER).as_bytes()).await.map_err(|e| e.to_string())?;
     let mut buf = Vec::new();
     let mut tmp = [0u8; 4096];
     loop {
